@@ -164,7 +164,7 @@ package wamp
 
 //@ func RecvTimeout
 //@   requires !isnil(p)
-//@   recvsite : [peers-deliver-well-formed-messages] assume !isnil(m) && (is(m, *Hello) ==> m.(*Hello) != nil) && (is(m, *Authenticate) ==> m.(*Authenticate) != nil)
+//@   recvsite Message : [peers-deliver-well-formed-messages] assume !isnil(m) && (is(m, *Hello) ==> m.(*Hello) != nil) && (is(m, *Authenticate) ==> m.(*Authenticate) != nil)
 //@   ensures [message-or-error] isnil(result1) ==> !isnil(result0) && (is(result0, *Hello) ==> result0.(*Hello) != nil) && (is(result0, *Authenticate) ==> result0.(*Authenticate) != nil)
 
 // NormalizeDict goes through reflect; the only fact used is that a value of a
@@ -176,7 +176,7 @@ package wamp
 
 //@ func (s *Session) setRoles
 //@   requires s != nil
-//@   modifies s.roles, all map[string]map[string]struct{}, all map[string]struct{}
+//@   modifies s.roles, fresh map[string]map[string]struct{}, fresh map[string]struct{}
 
 //@ func NewSession
 //@   modifies nothing
